@@ -123,6 +123,32 @@ theorem translated_waitTimeout (σ : Env) (hs : σ "select#0" = 0 ∨ σ "select
     r.calls = [("make", [σ "chan struct{}"]), ("go func() { defer close(c) wg.Wait() }", []),
                ("time.After", [σ "timeout"]), ("select", [σ "make#0", σ "time.After#0"])] := by
   rcases hs with h | h <;> minigo_simp [Trans.exWaitTimeout, h]
+
+def observeCall (σ : Env) : String × List Int :=
+  ("metrics.Node().ProcessTime.WithLabelValues(nc.Config.ID).Observe", [σ "time.Since(start).Seconds()"])
+
+/-- invokeProcessorAsync, translated: the event is wrapped with the three callbacks and handed to the node's ProcessAsync —
+and that is all: in particular nothing is counted on the node's WaitGroup here (the rendezvous of the close cascade counts
+workers, not events) -/
+theorem translated_invokeAsync (σ : Env) (hok : σ "assert AsyncNode#1" ≠ 0) :
+    obs Trans.ncInvokeAsync σ =
+      ⟨[("time.Now", []),
+        ("firebolt.NewAsyncEvent", [σ "event", σ "func literal errFunc", σ "func literal eventFunc", σ "func literal filterFunc"]),
+        ("assert AsyncNode", [σ "nc.NodeProcessor"]),
+        ("asyncNode.ProcessAsync", [σ "firebolt.NewAsyncEvent#0"])], none, false⟩ := by
+  minigo_simp [Trans.ncInvokeAsync, hok]
+
+/-- the three answers an asynchronous node can give, translated: each records the processing time and reports to handleResult
+exactly once — the error with the original event, the result (or nil) with no error, a filtered event with neither — and does
+nothing else: whatever the answer, nothing is left for the shutdown cascade to wait for -/
+theorem translated_asyncCallbacks (σ : Env) :
+    obs Trans.ncAsyncErrFunc σ = ⟨[observeCall σ, ("nc.handleResult", [σ "err", σ "event", 0])], none, false⟩ ∧
+    obs Trans.ncAsyncEventFunc σ =
+      ⟨[observeCall σ, ("nc.handleResult", [0, σ "event", if σ "result" ≠ 0 then σ "eventToEventSlice(result.Event)" else 0])], none, false⟩ ∧
+    obs Trans.ncAsyncFilterFunc σ = ⟨[observeCall σ, ("nc.handleResult", [0, σ "event", 0])], none, false⟩ := by
+  by_cases h : σ "result" = 0 <;>
+  minigo_simp [Trans.ncAsyncErrFunc, Trans.ncAsyncEventFunc, Trans.ncAsyncFilterFunc, observeCall, h]
+
 end Translated
 
 theorem closure_unchanged : GeneratedClo.C17 = ExpectedClo.C17 := by rfl
